@@ -186,6 +186,8 @@ def histories(draw):
         if draw(st.booleans()):
             # the verbosity is the one option whose effect lives in process-wide state (the "BADS" logger)
             ov["display"] = draw(st.sampled_from(CURATED["display"]))
+        if draw(st.sampled_from([False, False, True])):
+            ov["random_seed"] = draw(st.sampled_from(CURATED["random_seed"]))  # (0 is a seed like any other)
         unknown = None
         if draw(st.sampled_from([False] * 5 + [True])):
             base = draw(st.sampled_from(names))
@@ -243,6 +245,7 @@ def run_history(case):
     evals = 0
 
     seen_levels = []
+    src_of = {}
 
     def target(x):
         import logging
@@ -337,6 +340,7 @@ def run_history(case):
                         v.append(viol("b:default-differs-from-reference", f"{k}: options hold {got[k]!r}, reference default for D={D} "
                                       f"(overrides {sorted(ov)}) is {ref[k]!r}", site=k))
             live[i] = (b, user, user_before, (x0, lb, ub, plb, pub), arrs_before)
+            src_of[i] = src
             snaps[i] = got
         else:
             if i not in live:
@@ -347,12 +351,16 @@ def run_history(case):
             pre_other = {j: snapshot(live[j][0].options) for j in live if j != i}
             del seen_levels[:]
             want_level = {"off": 30, "iter": 20, "final": 20, "full": 10}.get(b.options["display"], 20)
+            res_obj = None
             try:
-                b.optimize()
+                res_obj = b.optimize()
             except Exception as e:  # noqa: BLE001
                 info = harness.exc_info(e)
                 labs.append("run-exception:" + info["type"])
             ran.add(i)
+            ovr = case["insts"][i]["overrides"]
+            if res_obj is not None and "random_seed" in ovr and src_of.get(i) is None and not same(res_obj["random_seed"], ovr["random_seed"]):
+                v.append(viol("a:user-value-not-in-effect", f"random_seed={ovr['random_seed']!r} supplied, the run reports {res_obj['random_seed']!r}", site="random_seed"))
             # (a) the display option of *this* instance is what governs its run, whatever was constructed in between
             if "display" in case["insts"][i]["overrides"] and seen_levels and any(lv != want_level for lv in seen_levels):
                 v.append(viol("a:user-value-not-in-effect", f"display={b.options['display']!r} of instance {i}: logger level during its run was "
